@@ -71,6 +71,48 @@ theorem front_single_column (S : List Vec) (i : Nat) :
   intro a _ b _ h
   simp [leqAll, col_mono i h]
 
+theorem sle_col {a b : Int} : ∀ (i : Nat) {y x : Vec}, sle a b y x → b * col i y ≤ a * col i x
+  | _, [], [], _ => by simp [col]
+  | _, [], _ :: _, h => by cases h
+  | _, _ :: _, [], h => by cases h
+  | 0, y :: ys, x :: xs, h => by simpa [col] using h.1
+  | i + 1, y :: ys, x :: xs, h => by simpa [col] using sle_col i h.2
+
+/-- Two columns each within the factor `a / b` ⇒ their product within `a² / b²`. -/
+theorem edp_sle {a b : Int} (ha : 0 ≤ a) (hb : 0 ≤ b) {y x : Vec} (hy : ∀ u ∈ y, 0 ≤ u)
+    (hx : ∀ u ∈ x, 0 ≤ u) (h : sle a b y x) : (b * b) * edp y ≤ (a * a) * edp x := by
+  have h0 := sle_col 0 h
+  have h1 := sle_col 1 h
+  have y1 := col_nonneg hy 1
+  have x0 := col_nonneg hx 0
+  have e := Int.mul_le_mul h0 h1 (Int.mul_nonneg hb y1) (Int.mul_nonneg ha x0)
+  unfold edp
+  grind
+
+/-- Best energy × latency over a table. -/
+def bestEdp (cs : List (Cand K)) : Option Int := minOf (fun c => edp c.obj) cs
+
+/-- With an approximate reduction of factor `a / b` per column, the best EDP is never below the true
+optimum and at most `a² / b²` times it: for EDP the documented factor `(1 + t)` **squares**. -/
+theorem bestEdp_of_acov {a b : Int} (ha : 0 ≤ a) (hb : 0 ≤ b) {A' A : List (Cand K)}
+    (hA : ∀ c ∈ A, ∀ u ∈ c.obj, 0 ≤ u) (h : ACov a b A' A) {m : Int} (hm : bestEdp A = some m) :
+    ∃ m', bestEdp A' = some m' ∧ m ≤ m' ∧ (b * b) * m' ≤ (a * a) * m := by
+  obtain ⟨⟨x, hx, hxm⟩, hlb⟩ := minOf_eq_some.1 hm
+  obtain ⟨y, hy, _, ho, _⟩ := h.cov x hx
+  cases hA' : bestEdp A' with
+  | none =>
+    have : A' = [] := minOf_eq_none.1 hA'
+    rw [this] at hy; cases hy
+  | some m' =>
+    obtain ⟨⟨z, hz, hzm⟩, hlb'⟩ := minOf_eq_some.1 hA'
+    refine ⟨m', rfl, ?_, ?_⟩
+    · rw [← hzm]; exact hlb z (h.sub z hz)
+    · have h1 : m' ≤ edp y.obj := hlb' y hy
+      have h2 := edp_sle ha hb (hA y (h.sub y hy)) (hA x hx) ho
+      have h3 := Int.mul_le_mul_of_nonneg_left h1 (Int.mul_nonneg hb hb)
+      rw [hxm] at h2
+      omega
+
 /-! ## `_apply_edp_columns` -/
 
 /-- `edp_column`: the appended column is energy × latency, for every row and every flag combination. -/
